@@ -238,7 +238,7 @@ evname(char *buf, size_t bsz, const struct ev_s *e)
 	case E_TICK_ONTIME: snprintf(buf, bsz, "TICK(on-time)"); break;
 	case E_TICK_IDLE: snprintf(buf, bsz, "TICK(idle)"); break;
 	case E_TICK_EXACT: snprintf(buf, bsz, "TICK(exact)"); break;
-	case E_TICK_FAIL: snprintf(buf, bsz, "TICK(on-time, pipe() fails with EMFILE)"); break;
+	case E_TICK_FAIL: snprintf(buf, bsz, "TICK(on-time, %s)", e->arg ? "posix_spawn() fails with EAGAIN" : "pipe() fails with EMFILE"); break;
 	case E_TICK_LATE: snprintf(buf, bsz, "TICK(late-%d)", e->arg); break;
 	case E_EXIT: snprintf(buf, bsz, "EXIT(%d)", e->arg); break;
 	case E_LIST: snprintf(buf, bsz, "LIST(%u%s)", users[e->user], e->arg == 1 ? " as other" : ""); break;
@@ -284,7 +284,8 @@ enabled(struct ev_s *ev, int max)
 			ndue += t->present && !t->zombie && t->next < t->nocc && t->occ[t->next] == e;
 		}
 		if (ndue == 1) {
-			PUSH(E_TICK_FAIL);
+			PUSH(E_TICK_FAIL, 0, 0, 0);
+			PUSH(E_TICK_FAIL, 0, 0, 1);
 		}
 	}
 	if (armed && e - hx_now > 0.75 && !narrow) {
@@ -566,6 +567,18 @@ apply(const struct ev_s *e)
 		if (rp.nsucc != expsucc || rp.nfail != expfail) {
 			snprintf(shape, sizeof(shape), "%s/%s", k, rp.nsucc + rp.nfail != nins ? "count" : rp.nsucc > expsucc ? "accepted" : "refused");
 			report("reply", shape, "%d instruction(s): %d success / %d failure replies, expected %d / %d", nins, rp.nsucc, rp.nfail, expsucc, expfail);
+		} else {
+			/* every reply is about the task the instruction named */
+			for (int q = 0; q < nins; q++) {
+				char pat[96];
+				snprintf(pat, sizeof(pat), "\nUID:%s\n", q ? uids[e->arg2] : uids[e->uid]);
+				if (strstr(rp.buf, pat) == NULL) {
+					const char *u = strstr(rp.buf, "\nUID:");
+					snprintf(shape, sizeof(shape), "%s", k);
+					report("reply-uid", shape, "the reply to the request about %s names %.*s", q ? uids[e->arg2] : uids[e->uid], u ? (int)strcspn(u + 1, "\r\n") : 8, u ? u + 1 : "no UID");
+					break;
+				}
+			}
 		}
 		break;
 	}
@@ -687,9 +700,10 @@ apply(const struct ev_s *e)
 			if (!any || hx_drift <= 0) break;
 			to += hx_drift;
 		}
-		hx_pipe_fail = e->kind == E_TICK_FAIL;
+		hx_pipe_fail = e->kind == E_TICK_FAIL && e->arg == 0;
+		hx_spawn_fail = e->kind == E_TICK_FAIL && e->arg == 1;
 		hx_tick(tick_to);
-		hx_pipe_fail = 0;
+		hx_pipe_fail = hx_spawn_fail = 0;
 		break;
 	}
 	case E_EXIT: {
@@ -1087,6 +1101,87 @@ busy_mode(int variant)
 			report("queue-file", shape, "user 1000's queue file holds %d UIDs, %s is missing", nl, miss[0] ? miss : "none");
 			return;
 		}
+	} else if (variant == 4) {
+		/* many clients at once: K connections are open at the same time, each has sent the first half of its
+		 * request when the others send theirs; every client must get the reply to ITS request and the task
+		 * must be filed under ITS uid */
+		enum {K = 40};
+		static int sv[K][2];
+		static struct echs_conn_s *cn[K];
+		static char req[K][512];
+		static size_t rl[K];
+		char st0[32];
+		snprintf(hist, sizeof(hist), "%d connections open at once (users 1000 and 1001 alternating), each ADDs conn-<i>; first halves of all requests, then the second halves", K);
+		vd_desc("%s", hist);
+		snprintf(shape, sizeof(shape), "busy/many-connections");
+		tpl_stamp(st0, sizeof(st0), HX_T0 + 3600);
+		for (int i = 0; i < K; i++) {
+			if (socketpair(AF_UNIX, SOCK_STREAM, 0, sv[i]) < 0) { report("harness", shape, "socketpair"); return; }
+			rl[i] = (size_t)snprintf(req[i], sizeof(req[i]), "BEGIN:VCALENDAR\nVERSION:2.0\nMETHOD:PUBLISH\nBEGIN:VEVENT\nUID:conn-%d\nSUMMARY:job\nDTSTART:%s\nEND:VEVENT\nEND:VCALENDAR\n", i, st0);
+			if ((cn[i] = make_conn()) == NULL) {
+				report("refused", shape, "connection %d of %d is refused (the daemon allows 64)", i + 1, K);
+				return;
+			}
+			for (int j = 0; j < i; j++) {
+				if (cn[j] == cn[i]) {
+					report("connection-shared", shape, "connection %d (uid %d) is given the slot that connection %d (uid %d) still uses: one buffer, one set of credentials for both clients",
+					       i + 1, i & 1 ? 1001 : 1000, j + 1, j & 1 ? 1001 : 1000);
+					return;
+				}
+			}
+			/* the client side must not block the harness when the daemon never answers */
+			fcntl(sv[i][0], F_SETFL, fcntl(sv[i][0], F_GETFL) | O_NONBLOCK);
+			/* as after accept(): the daemon's sockets do not block */
+			fcntl(sv[i][1], F_SETFL, fcntl(sv[i][1], F_GETFL) | O_NONBLOCK);
+			cn[i]->cred = compl_uid(i & 1 ? 1001 : 1000);
+			ev_io_init(&cn[i]->r, sock_data_cb, sv[i][1], EV_READ);
+			/* first half */
+			(void)syscall(SYS_write, (long)sv[i][0], (long)req[i], (long)(rl[i] / 2), 0L, 0L, 0L);
+			sock_data_cb(hx_ctx->loop, &cn[i]->r, EV_READ);
+			VT->transitions++;
+		}
+		for (int i = 0; i < K; i++) {
+			char buf[2048];
+			size_t bl = 0;
+			char want[32];
+			int ns = 0;
+			(void)syscall(SYS_write, (long)sv[i][0], (long)(req[i] + rl[i] / 2), (long)(rl[i] - rl[i] / 2), 0L, 0L, 0L);
+			shutdown(sv[i][0], SHUT_WR);
+			for (int q = 0; q < 8 && cn[i]->r.fd == sv[i][1] && cn[i]->buf != NULL; q++) {
+				sock_data_cb(hx_ctx->loop, &cn[i]->r, EV_READ);
+			}
+			VT->transitions++;
+			for (;;) {
+				ssize_t r = (ssize_t)syscall(SYS_read, (long)sv[i][0], (long)(buf + bl), (long)(sizeof(buf) - 1 - bl), 0L, 0L, 0L);
+				if (r <= 0) break;
+				bl += (size_t)r;
+				if (bl >= sizeof(buf) - 1) break;
+			}
+			buf[bl] = '\0';
+			syscall(SYS_close, (long)sv[i][0], 0L, 0L, 0L, 0L, 0L);
+			for (const char *q = buf; (q = strstr(q, "REQUEST-STATUS:2")); q += 15) ns++;
+			snprintf(want, sizeof(want), "UID:conn-%d\n", i);
+			if (ns != 1 || strstr(buf, want) == NULL) {
+				char shown[200];
+				const char *u = strstr(buf, "UID:");
+				snprintf(shown, sizeof(shown), "%.*s", u ? (int)strcspn(u, "\r\n") : 9, u ? u : "(no UID)");
+				report("reply", shape, "client %d of %d (uid %d) asked to add conn-%d and gets %d success replies%s%s", i + 1, K, i & 1 ? 1001 : 1000, i, ns,
+				       strstr(buf, want) ? "" : ", none of them for its UID; the reply names ", strstr(buf, want) ? "" : shown);
+				return;
+			}
+		}
+		{
+			struct hx_task_s obs[HX_MAXTASKS];
+			int n = hx_observe(obs);
+			if (n != K) { report("task-table", shape, "%d tasks in the table after %d acknowledged adds", n, K); return; }
+			for (int j = 0; j < n; j++) {
+				const int id = atoi(obs[j].uid + 5);
+				if (obs[j].owner != (unsigned)(id & 1 ? 1001 : 1000)) {
+					report("owner", shape, "task %s was sent by user %d and is filed under %u", obs[j].uid, id & 1 ? 1001 : 1000, obs[j].owner);
+					return;
+				}
+			}
+		}
 	} else {
 		/* many distinct UIDs in one daemon life */
 		const int N = variant == 2 ? 300 : 1500;
@@ -1294,7 +1389,9 @@ enumerate(void)
 	if (collide) narrow = narrow ? narrow : 1;
 	if (!strcmp(vd_opt("mode", "explore"), "busy")) {
 		const int nvar = (int)vd_opt_l("variants", 3);
+		const int skip = (int)vd_opt_l("skip", -1);	/* the 1500-UID history is thorough only */
 		for (int v = 0; v < nvar; v++) {
+			if (v == skip) continue;
 			if (!vd_next()) continue;
 			vd_shape("busy/%d", v);
 			memset(VT, 0, sizeof(*VT));
